@@ -229,6 +229,10 @@ pub fn run(tier: Tier, seed: u64) -> i32 {
             );
         }
     }
+    if tier == Tier::Thorough {
+        // Miri over the planner + executor on the N<=2 scope (16 shards in parallel).
+        crate::miri::run_slices(&rep, "reorder", 16, 0, "");
+    }
     if rep.counter("process.inplace_clones_dev") == 0 || rep.counter("planner.store_in_mem_ops") == 0 {
         rep.broken("no in-place clone judged / no cycle pattern seen".into());
     }
